@@ -620,6 +620,12 @@ def check_sweep(rep, tier, rng, drv):
             rep.violation(f"{t[8]} mode, codec {CODECS[int(t[2])]}: the single-threaded reference read of a valid file does not end with "
                           f"OK batches and END_OF_DATA (statuses {kv.get('base')}) - nothing to compare the threaded runs with",
                           {"case": li, "impl": o[:800]})
+        # ... and must deliver every row of the file (row groups x pages x rows per page of the file spec)
+        want_rows = int(t[4]) * int(t[5]) * int(t[6])
+        base_rows = kv.get("rows", "0/0").split("/")[-1]
+        if "corrupt_" not in li and base_rows.isdigit() and int(base_rows) != want_rows:
+            rep.violation(f"{t[8]} mode, codec {CODECS[int(t[2])]}: the single-threaded reference read delivers {base_rows} rows, the file "
+                          f"holds {want_rows}", {"case": li, "impl": o[:800]})
         if kv.get("unstable", "0/0") != "0/0":
             rep.violation(f"{t[8]} mode, codec {CODECS[int(t[2])]}, num_threads={t[10]}: a batch that the caller still holds changed while the "
                           f"next batch was read (batches changed: {kv.get('unstable')} in the num_threads run / the single-threaded run)",
